@@ -68,3 +68,17 @@ func lemma_C16_normalize_agrees_with_inverse(r Rel) bool {
 	i := r.Invert()
 	return r.Normalize() == i.Normalize()
 }
+
+//@ spec relName(n Rel) = ite(n.ToName != "", n.FromType + "_" + n.FromName + "_" + n.ToType + "_" + n.ToName, n.FromType + "_" + n.FromName)
+
+//@ func Rel.String
+//@ props C16
+//@ flag pure
+//@ ensures name: result == relName(Rel.Normalize(r))
+
+//@ lemma lemma_C16_string_agrees_with_inverse
+//@ props C16
+//@ requires relDom(r) && r.ToName != ""
+func lemma_C16_string_agrees_with_inverse(r Rel) bool {
+	return r.String() == r.Invert().String()
+}
